@@ -4,26 +4,15 @@ import UtilModel.Keyed.Refine4
 -/
 namespace UtilModel.Keyed
 
-theorem noDueRm_of_noDue (s : St) (h : noDue s = true) : NoDueRm s := by
-  intro k r e hk hd hlt
-  simp only [noDue, List.all_eq_true, List.mem_range] at h
-  have := h k (look_lt _ _ _ hk)
-  have hk' : s.key k = some r := hk
-  simp only [hk', Bool.and_eq_true, Bool.not_eq_true'] at this
-  simp [dueOpt, hd, hlt] at this
-
 /-- the invariant the refinement needs -/
 structure RInv (s : St) : Prop where
   refs : RefInv s
-  due : s.call ≠ .idle → NoDueRm s
-  /-- a removal timer was armed in the current or an earlier epoch -/
-  armed : ∀ k r e, s.key k = some r → r.deferRemove = some e → e ≤ s.epoch
 
-theorem abs_call (s : St) (c : Call) : abs { s with call := c } = abs s := rfl
+theorem abs_call (s : St) (c : List Call) : abs { s with calls := c } = abs s := rfl
 theorem abs_modInst (s : St) (g i : Nat) (f : Inst → Inst) : abs (modInst s g i f) = abs s := rfl
 
 theorem instStep_abs (s s' : St) (g i : Nat) (f : G → Inst → Option Inst) (h : instStep s g i f = some s') :
-    abs s' = abs s ∧ s'.keys = s.keys ∧ s'.refs = s.refs ∧ s'.call = s.call ∧ s'.epoch = s.epoch := by
+    abs s' = abs s ∧ s'.keys = s.keys ∧ s'.refs = s.refs ∧ s'.calls = s.calls ∧ s'.epoch = s.epoch := by
   unfold instStep at h
   split at h
   · simp at h
@@ -60,30 +49,23 @@ theorem touch_recordInst (s : St) (g i : Nat) (x : Inst) (k : Nat) : Touch k s (
           · split <;> rfl
     · exact T0
 
-theorem noDueRm_touch {k : Nat} {s s' : St} (T : Touch k s s') (h : NoDueRm s) : NoDueRm s' := by
-  intro k' r' e hk hd
-  rw [T.frame.epoch]
-  by_cases hkk : k' = k
-  · subst hkk
-    have hc := T.same
-    rw [hk] at hc
-    cases hr : s.key k' with
-    | none => simp [core, hr] at hc
-    | some r =>
-      simp [core, hr] at hc
-      exact h k' r e hr (by rw [← hc.2, hd])
-  · rw [T.other k' hkk] at hk
-    exact h k' r' e hk hd
-
-theorem noDueRm_keys {s s' : St} (hk : s'.keys = s.keys) (he : s'.epoch = s.epoch) (h : NoDueRm s) : NoDueRm s' := by
-  intro k r e hkr hd
-  rw [he]
-  exact h k r e (by simpa [St.key, hk] using hkr) hd
+theorem pendingOp_mem (cs : List Call) (id : Nat) (op : Op) (h : pendingOp cs id = some op) :
+    Call.invoked id op ∈ cs := by
+  induction cs with
+  | nil => simp [pendingOp] at h
+  | cons c cs ih =>
+    cases c with
+    | invoked id' op' =>
+      simp only [pendingOp] at h
+      split at h
+      · rename_i he; subst he; simp at h; subst h; simp
+      · simp [ih h]
+    | done id' q r => simp only [pendingOp] at h; simp [ih h]
 
 theorem step_refines (s s' : St) (e : Ev) (hI : RInv s) (h : step s e = some s') :
     abs s' = specEv (abs s) s e ∧
-    (∀ id op, e = .exec → s.call = .invoked id op →
-      ∃ cs res, s'.call = .done id cs res ∧ SpecOut (abs s) (abs s') op res) := by
+    (∀ id op, e = .exec id → pendingOp s.calls id = some op →
+      ∃ cs res, .done id cs res ∈ s'.calls ∧ SpecOut (abs s) (abs s') op res) := by
   cases e with
   | config c =>
     simp only [step] at h
@@ -97,34 +79,33 @@ theorem step_refines (s s' : St) (e : Ev) (hI : RInv s) (h : step s e = some s')
     · split at h
       · simp at h; subst h; exact ⟨rfl, by simp⟩
       · simp at h
-  | exec =>
+  | exec id =>
     simp only [step] at h
     split at h
-    · rename_i id op hc
+    · rename_i op hc
       simp at h; subst h
-      have hd := hI.due (by simp [hc])
-      have := execOp_refines s op hd hI.refs
+      have := execOp_refines s op hI.refs
       refine ⟨?_, ?_⟩
       · rw [abs_call, this.1]; simp [specEv, hc]
-      · intro id' op' _ hc'
+      · intro id' op' he hc'
+        simp only [Ev.exec.injEq] at he
+        subst he
         rw [hc] at hc'
-        simp only [Call.invoked.injEq] at hc'
-        obtain ⟨rfl, rfl⟩ := hc'
-        exact ⟨_, _, rfl, by rw [abs_call]; exact this.2⟩
+        simp only [Option.some.injEq] at hc'
+        subst hc'
+        refine ⟨(execOp s op).2.1, (execOp s op).2.2, ?_, by rw [abs_call]; exact this.2⟩
+        simp only [List.mem_map]
+        exact ⟨.invoked id op, pendingOp_mem s.calls id op hc, by simp⟩
     · simp at h
   | ctor k d =>
     simp only [step] at h
     split at h
-    · split at h
-      · simp at h; subst h; exact ⟨rfl, by simp⟩
-      · simp at h
+    · simp at h; subst h; exact ⟨rfl, by simp⟩
     · simp at h
   | ret id res =>
     simp only [step] at h
     split at h
-    · split at h
-      · simp at h; subst h; exact ⟨rfl, by simp⟩
-      · simp at h
+    · simp at h; subst h; exact ⟨rfl, by simp⟩
     · simp at h
   | proceed g i => exact ⟨(instStep_abs s s' g i _ h).1, by simp⟩
   | bail g i => exact ⟨(instStep_abs s s' g i _ h).1, by simp⟩
@@ -163,13 +144,15 @@ theorem step_refines (s s' : St) (e : Ev) (hI : RInv s) (h : step s e = some s')
       · rename_i hdue
         simp at h; subst h
         refine ⟨?_, by simp⟩
-        -- the key was due, hence already absent in the abstraction
-        have hab : absKey s.epoch (s.key k) = .absent := by
+        -- the callback of a due removal timer: the key expires
+        have hexp : expSt (abs s) k = .absent := by
           cases hdr : r.deferRemove with
           | none => simp [dueOpt, hdr] at hdue
           | some e =>
             simp [dueOpt, hdr] at hdue
-            simp [hr, absKey, hdr, hdue]
+            simp only [expSt, st_abs, hr, absKey, hdr]
+            have : e < (abs s).epoch := hdue
+            simp [this]
         have := abs_upd s (removeNow s k r) ((frame_cancelOpt s r.gen r.cancelOf).trans (frame_setRec _ k none))
           k .absent (s.ctors k)
           (fun k' hk => by simp [removeNow, hk])
@@ -177,12 +160,9 @@ theorem step_refines (s s' : St) (e : Ev) (hI : RInv s) (h : step s e = some s')
           (fun k' _ => by simp [removeNow])
           (by simp [removeNow])
         rw [this]
-        simp only [specEv]
-        have h1 : upd (abs s).st k .absent = (abs s).st := by
-          have : (abs s).st k = .absent := hab
-          rw [← this]; exact upd_self _ _
+        simp only [specEv, expire, hexp]
         have h2 : upd (abs s).nctor k (s.ctors k) = (abs s).nctor := upd_self (abs s).nctor k
-        rw [h1, h2]
+        rw [h2]
       · simp at h
     · simp at h
   | timerRetry k =>
@@ -202,25 +182,9 @@ theorem step_refines (s s' : St) (e : Ev) (hI : RInv s) (h : step s e = some s')
   | advance =>
     simp only [step] at h
     split at h
-    · rename_i hg
-      simp at h; subst h
+    · simp at h; subst h
       refine ⟨?_, by simp⟩
-      have hd := noDueRm_of_noDue s hg.2.2
-      simp only [specEv, specAdvance, abs, delayOn]
-      congr 1
-      funext k
-      have hkey : ({ s with epoch := s.epoch + 1 } : St).key k = s.key k := rfl
-      rw [hkey]
-      cases hr : s.key k with
-      | none => simp [absKey]
-      | some r =>
-        simp only [absKey]
-        cases hdr : r.deferRemove with
-        | none => rfl
-        | some e =>
-          have := hd k r e hr hdr
-          have h1 : e < s.epoch + 1 := by have := hI.armed k r e hr hdr; omega
-          simp [this, h1]
+      rfl
     · simp at h
   | quiesce =>
     simp only [step] at h
